@@ -163,6 +163,23 @@ def check_foreign(inp):
     foreign = [clean, s, None, 0, 1.5, (clean,), [clean], {"vector": clean}, clean.encode("utf-8"), o.scores(),
                object(), hash(o), type(o)]
     fails = []
+
+    class Agreeable(object):
+        """a foreign value that claims to be equal to everything (unittest.mock.ANY, SQL expression objects, matchers): what
+        `obj == it` answers is decided by the object on the left first - the statement says 'never'"""
+        def __eq__(self, other):
+            return True
+
+        def __ne__(self, other):
+            return False
+        __hash__ = None
+    a = Agreeable()
+    try:
+        r = [(o == a), (o != a)]
+    except BaseException as e:  # noqa
+        r = "%s raised" % type(e).__name__
+    if r != [False, True]:
+        fails.append(failure([False, True], r, note="obj == x, obj != x for a foreign x whose own __eq__ answers True to everything"))
     for f in foreign:
         try:
             r1, r2 = (o == f), (f == o)
